@@ -133,8 +133,15 @@ def run_tlc(module, cfg=None, workers=8, simulate=None, depth=None, seed_=None, 
     timer = threading.Timer(timeout, lambda: (setattr(r, "timed_out", True), p.kill()))
     timer.start()
     try:
-        for line in p.stdout:
+        it = iter(p.stdout)
+        for line in it:
             if print_prefix and print_prefix in line:
+                # TLC's pretty printer may wrap a printed tuple over several lines
+                while not line.rstrip().endswith(">>"):
+                    try:
+                        line = line.rstrip("\n") + " " + next(it).lstrip()
+                    except StopIteration:
+                        break
                 if print_cb:
                     print_cb(line)
                 else:
@@ -186,10 +193,10 @@ def run_tlc(module, cfg=None, workers=8, simulate=None, depth=None, seed_=None, 
 
 def tlc_value_to_json(text):
     """PrintT of <<"TAG", "<json string>">> : extracts the JSON string (ToJson output) from a printed tuple."""
-    i = text.find('", "')
-    if i < 0:
+    m = re.match(r'\s*<<\s*"[A-Za-z0-9_]*"\s*,\s*', text)
+    if not m:
         return None
-    s = text[i + 3:].rstrip()
+    s = text[m.end():].rstrip()
     if s.endswith(">>"):
         s = s[:-2].rstrip()
     # s is a TLA+ string literal: "...." with \" and \\ escapes
